@@ -818,6 +818,45 @@ def Eq(a, b):
   return a == b
 
 
+def defined_int(prefix, constraint_fn):
+  """A fresh integer constant k constrained by constraint_fn(k) (a z3 Bool that
+  must determine k uniquely).  Keeps deeply nested ToInt/ite terms out of the
+  path condition."""
+  ex = explorer()
+  n = ex.aux_counter
+  ex.aux_counter += 1
+  k = z3.Int('%s!%d' % (prefix, n))
+  ex.assume(SymBool(constraint_fn(k)))
+  return SymInt(k)
+
+
+def round_nearest(x, ties='even'):
+  """Nearest integer to the real x; ties to even (Python round) or up."""
+  if not is_sym(x):
+    if ties == 'even':
+      return round(x)
+    return math.floor(x + 0.5)
+  t = z3.simplify(real_term(x))
+  half = z3.Q(1, 2)
+  ex = explorer()
+  key = (t.get_id(), ties)
+  hit = ex.round_cache.get(key)
+  if hit is not None:
+    return hit[0]
+
+  def cons(k):
+    kr = z3.ToReal(k)
+    if ties == 'even':
+      return z3.And(t - kr <= half, kr - t <= half,
+                    z3.Implies(t - kr == half, k % 2 == 0),
+                    z3.Implies(kr - t == half, k % 2 == 0))
+    return z3.And(t - kr < half, kr - t <= half)
+
+  r = defined_int('round', cons)
+  ex.round_cache[key] = (r, t)  # keep t alive so that its id stays unique
+  return r
+
+
 def Sum(xs):
   r = 0
   for x in xs:
@@ -895,6 +934,8 @@ class Explorer(object):
     self.names = set()
     self.cover_wanted = {}
     self.exhausted = False
+    self.aux_counter = 0
+    self.round_cache = {}
     self.decided = {}  # AST id -> value, for conditions decided on this path
 
   # -- solver plumbing
@@ -1111,6 +1152,8 @@ class Explorer(object):
     self.pos = 0
     self.inputs = []
     self.names = set()
+    self.aux_counter = 0
+    self.round_cache = {}
 
   def _next_prefix(self):
     """Truncates the log to the deepest open alternative; False if none."""
